@@ -1089,4 +1089,24 @@ theorem nPerMain_mod8 (nPairs nProc : Nat) : nPerMain nPairs nProc % 8 = 0 ∧ 8
     · rw [Nat.max_eq_left h]
   · exact Nat.le_max_left _ _
 
+/-! ### Welch statistic: symmetric in the two clusters -/
+
+theorem nuNum_comm (v1 : Rat) (n1 : Nat) (v2 : Rat) (n2 : Nat) :
+    nuNum v1 n1 v2 n2 = nuNum v2 n2 v1 n1 := by unfold nuNum; ring
+
+theorem welch_swap (m1 v1 : Rat) (n1 : Nat) (m2 v2 : Rat) (n2 : Nat) :
+    welchNu v1 n1 v2 n2 = welchNu v2 n2 v1 n1 ∧
+    welchTSq m1 v1 n1 m2 v2 n2 = welchTSq m2 v2 n2 m1 v1 n1 := by
+  constructor
+  · unfold welchNu
+    have h1 : nuDenom v1 n1 v2 n2 = nuDenom v2 n2 v1 n1 := by unfold nuDenom; ring
+    rw [h1, nuNum_comm]
+    by_cases h : n1 < 2 ∨ n2 < 2
+    · rw [if_pos h, if_pos h.symm]
+    · rw [if_neg h, if_neg (fun h' => h h'.symm)]
+  · unfold welchTSq
+    rw [nuNum_comm]
+    have : (m1 - m2) * (m1 - m2) = (m2 - m1) * (m2 - m1) := by ring
+    simp only [this]
+
 end CTM.RefMarkers
